@@ -68,7 +68,9 @@ func vxC08MonExec(t *testing.T, cfg vxC08MonCfg, x *mc.X, fs *env.FS) (viol []mc
 			}
 			return nil
 		}
-		sched, stop := vsched.Start(func(n int, labels []string) int { return x.Choose(n, fmt.Sprintf("which of %d goroutines parked at a sensor lock runs next", n)) })
+		sched, stop := vsched.Start(func(n int, labels []string) int {
+			return x.Choose(n, fmt.Sprintf("which of %d goroutines parked at a sensor lock runs next", n))
+		})
 		ctx, cancel := context.WithCancel(context.Background())
 		done := make(chan struct{})
 		go func() {
